@@ -54,6 +54,24 @@ theorem c12_stage_buffers_view_below {α} (T : Tables α) (vals : List α) (sp :
     | .sort _ _ r => r = [] := by
   cases sp <;> simp [mkStage, Filter.init, Srt.init, FInv]
 
+/-- **The adapter itself as observer.** At any time, what a Head / Tail / Skip hands to an adapter stacked on
+    it (`VectorObserver::into_parts`) is its current view of its buffered vector — the first `limit` items, the
+    last `limit` items, everything after `count` items (nothing while the count is unknown). -/
+theorem c12_into_parts_view {α} (st : Stage α) :
+    match st with
+    | .head l _ buf _ => st.intoParts = some (buf.take l)
+    | .tail l _ buf _ => st.intoParts = some (lastN l buf)
+    | .skip (some c) _ buf _ => st.intoParts = some (buf.drop c)
+    | .skip none _ _ _ => st.intoParts = some []
+    | .filter _ _ => st.intoParts = none
+    | .sort _ _ _ => st.intoParts = none := by
+  cases st with
+  | head l k buf r => have := head_initial buf l; simp only [Head.initial] at this; simp [Stage.intoParts, this]
+  | tail l k buf r => have := tail_initial buf l; simp only [Tail.initial] at this; simp [Stage.intoParts, this]
+  | skip c k buf r => cases c <;> simp [Stage.intoParts, skeep_eq]
+  | filter f s => simp [Stage.intoParts]
+  | sort c b r => simp [Stage.intoParts]
+
 -- non-vacuity: dynamic head below a filter starts empty although the source is not
 example :
     let T : Tables Nat := { filt := fun _ x => some x, cmp := fun _ => compare, sort := fun _ l => l }
